@@ -7,7 +7,7 @@ CFG = cfg('C04', extract='Ex_C03', driver='c03',
                'thorough: every bit of 10 messages over 3DES/CAST5/Blowfish/AES/Camellia x passphrase/RSA/ECDH(25519, P-256/384/521, secp256k1)/mixed recipients; '
                'extension, over-long / short header length, block swaps / deletions / duplications, MDC replaced / zeroed / removed, data emptied, version octet, '
                'tag 18 -> 9 re-framing incl. realigned downgrade forms, session-key packets reordered / duplicated / removed / foreign, splices between two messages '
-               'with the same and with different session keys, faults made WITH the session key that damage exactly one gate condition (repeat octets, MDC header, digest range, digest length, MDC position), wrong passphrases, every non-recipient key; deterministic search for the legacy tag-9 downgrade finding. distinct = distinct (message, mutation, recipient)',
+               'with the same and with different session keys, faults made WITH the session key that damage exactly one gate condition (repeat octets, MDC header, digest range, digest length, MDC position), wrong passphrases, every non-recipient key; same-object histories (decrypt(right) then wrong / empty / one zero octet / non-recipient key on ONE message object, wrong-right-wrong-right, all recipients then strangers): a wrong secret must raise whatever was done with the object before, each step compared with the model; deterministic search for the legacy tag-9 downgrade finding. distinct = distinct (message, mutation, recipient)',
           trusted=['Spec/Rfc4880_enc.v (RFC 5.13/5.14 MDC validity)',
                    'primitive oracle: hashlib + cryptography/OpenSSL called directly by tools/harness/c03.py'],
           assumptions=['NOT a theorem: that no other ciphertext / session-key packet / passphrase passes the SHA-1 gate or the 16-bit checksum (SHA-1, CFB, RSA, AES-key-wrap strength); '
@@ -17,7 +17,9 @@ CFG = cfg('C04', extract='Ex_C03', driver='c03',
                        'FINDING C04/legacy-sed-downgrade: PGPy still decrypts the legacy tag-9 packet (no MDC); the body of an integrity-protected packet re-framed as tag 9 always passes the '
                        '16-bit quick check and in about one message out of ten decrypts without error to a different plaintext; outside the gate theorems (which are about tag 18), '
                        'reproduced by the harness on every run',
-                       'inner packet parsing after the gate belongs to C08/C20'])
+                       'inner packet parsing after the gate belongs to C08/C20',
+                       'the model is a pure function of (message octets, secret); state kept on a PGPMessage / PGPKey object between calls is outside the theorems and is '
+                       'covered by the same-object-history suite only'])
 
 TEXT = ('Rocq theorems (Props/C04.v, closed under the global context): IntegrityProtectedSKEDataV1.decrypt returns a plaintext IFF the trailing 22 octets are D3 14 || SHA-1(rest) and the '
         'repeated prefix octets match (equal to the RFC 4880 valid-MDC transcription), rejects everything shorter than an MDC packet, refuses only with PGPDecryptionError; '
